@@ -55,8 +55,8 @@ var properties = map[string]Property{
 	},
 	"C01": {
 		Level:       "other",
-		Rules:       []string{"N-FORWARD", "N-PRESENCE", "N-KEYFLOW", "N-WALK", "N-VGSUM", "N-HEAD", "N-FUNCALL", "B-CHAIN", "O-SEQ", "O-LIFO", "O-MAPRANGE", "O-KEYSOURCE", "I-EXACT", "I-RANGE", "V-SELECT", "V-BOOL", "V-INPUT-PURE", "L-CLASS", "P-POST-NONEMPTY", "R-ITER-STABLE", "N-ENTRY", "N-APPLY", "G-IMPORTS"},
-		Explanation: "Decided: structural NECESSARY conditions of the step-by-step definition, one group per clause of the statement — name: the stored member name reaches the lookup unchanged and presence is decided by comma-ok lookups, so a null member is a member (N-KEYFLOW, N-PRESENCE); every step hands the next step the same root, the caller's sink and exactly the child it selected, and the chain builder links every step behind the previous one, member nodes of a multi-name selector included (N-FORWARD, B-CHAIN, N-WALK); wildcard / multi-name / union loops are complete, in written resp. sorted-key order, over a list nobody overwrites meanwhile (O-SEQ, O-MAPRANGE, O-KEYSOURCE, R-ITER-STABLE); recursive descent is pre-order (last-in-first-out pop, children pushed in reverse, parent before children) and skips no container (O-LIFO); index and slice subscripts produce exactly Python's indices on every zone partition (I-EXACT, I-RANGE); the filter hands member i on exactly when its verdict is true, the verdict lists have length 1 or the member count, and the logical nodes compute AND / OR / NOT member by member over operands that see the same members (V-SELECT, L-CLASS, V-BOOL, V-INPUT-PURE); function nodes are called once with the selected value(s), and the argument chain's value-group flag is summarised before it is consulted (N-FUNCALL, N-VGSUM); a step that reports success has emitted at least one value and a step that emitted nothing reports an error (P-POST-NONEMPTY). NOT decided — and not decidable by this family of technique: that the returned sequence EQUALS the one the definition gives for every path and document; that needs an executable reference and comparison of values. A violation of one of these conditions breaks C01; their conjunction does not imply it (e.g. what a comparison considers equal, the text of error results, anything only a particular document shows).",
+		Rules:       []string{"N-FORWARD", "N-PRESENCE", "N-KEYFLOW", "N-WALK", "N-VGSUM", "N-HEAD", "N-FUNCALL", "B-CHAIN", "O-SEQ", "O-LIFO", "O-MAPRANGE", "O-KEYSOURCE", "I-EXACT", "I-RANGE", "V-SELECT", "V-BOOL", "V-INPUT-PURE", "L-CLASS", "P-POST-NONEMPTY", "R-ITER-STABLE", "N-ENTRY", "N-APPLY", "G-IMPORTS", "O-POOL"},
+		Explanation: "Decided: structural NECESSARY conditions of the step-by-step definition, one group per clause of the statement — name: the stored member name reaches the lookup unchanged and presence is decided by comma-ok lookups, so a null member is a member (N-KEYFLOW, N-PRESENCE); every step hands the next step the same root, the caller's sink and exactly the child it selected, and the chain builder links every step behind the previous one, member nodes of a multi-name selector included (N-FORWARD, B-CHAIN, N-WALK); wildcard / multi-name / union loops are complete, in written resp. sorted-key order, over a list nobody overwrites meanwhile — in particular a pooled key or result buffer is not read after it was handed back to its pool (O-SEQ, O-MAPRANGE, O-KEYSOURCE, R-ITER-STABLE, O-POOL); recursive descent is pre-order (last-in-first-out pop, children pushed in reverse, parent before children) and skips no container (O-LIFO); index and slice subscripts produce exactly Python's indices on every zone partition (I-EXACT, I-RANGE); the filter hands member i on exactly when its verdict is true, the verdict lists have length 1 or the member count, and the logical nodes compute AND / OR / NOT member by member over operands that see the same members (V-SELECT, L-CLASS, V-BOOL, V-INPUT-PURE); function nodes are called once with the selected value(s), and the argument chain's value-group flag is summarised before it is consulted (N-FUNCALL, N-VGSUM); a step that reports success has emitted at least one value and a step that emitted nothing reports an error (P-POST-NONEMPTY). NOT decided — and not decidable by this family of technique: that the returned sequence EQUALS the one the definition gives for every path and document; that needs an executable reference and comparison of values. A violation of one of these conditions breaks C01; their conjunction does not imply it (e.g. what a comparison considers equal, the text of error results, anything only a particular document shows).",
 		Assumptions: []string{"the conditions listed are necessary, not sufficient, for C01; see the per-clause properties C07–C11, C14 for what each rule covers"},
 	},
 	"C02": {
@@ -77,8 +77,8 @@ var properties = map[string]Property{
 	},
 	"C18": {
 		Level:       "other",
-		Rules:       []string{"W-SPACE", "W-CAPTURE", "N-NUMCONV", "ST-FRAMES", "ST-BALANCE", "ST-TYPES", "R-GLOBALS", "U-DECODE", "W-QUOTES", "G-IMPORTS", "P-SLICEBOUND"},
-		Explanation: "Decided (structural part): on the grammar the generated parser actually runs (reconstructed by the decompiler), optional blanks are accepted on the stated side(s) of every occurrence of `[`, `]`, `,`, `:`, the seven comparison tokens, `||`, `&&`, `!`, `?(`, `(`, `)` and around a whole path; no capture whose text becomes a number, name, function name or regular expression can contain optional blanks; integers and numbers are converted in base 10 / as 64-bit floats from the unmodified text (so `+` and leading zeros are harmless); the text conversions consult no mutable package-level state; every spelling the grammar derives — in particular a path starting with a bracket instead of `$` — leaves the action value stack well-typed and balanced, so no spelling fails with an internal error. Not decided: quote-style equivalence and `.x` vs `['x']` beyond 'same constructor', `$`-omission behaviour.",
+		Rules:       []string{"W-SPACE", "W-CAPTURE", "N-NUMCONV", "ST-FRAMES", "ST-BALANCE", "ST-TYPES", "R-GLOBALS", "U-DECODE", "W-QUOTES", "G-IMPORTS", "P-SLICEBOUND", "N-VGSUM", "N-HEAD"},
+		Explanation: "Decided (structural part): on the grammar the generated parser actually runs (reconstructed by the decompiler), optional blanks are accepted on the stated side(s) of every occurrence of `[`, `]`, `,`, `:`, the seven comparison tokens, `||`, `&&`, `!`, `?(`, `(`, `)` and around a whole path; no capture whose text becomes a number, name, function name or regular expression can contain optional blanks; integers and numbers are converted in base 10 / as 64-bit floats from the unmodified text (so `+` and leading zeros are harmless); the text conversions consult no mutable package-level state; every spelling the grammar derives — in particular a path starting with a bracket instead of `$` — leaves the action value stack well-typed and balanced, so no spelling fails with an internal error; a path written without its leading `$` gets the same head as the one written with it: the root stand-in is put in front and whoever removes or replaces the head of a chain carries the chain's value-group summary over, so a later aggregate function sees the same grouping under both spellings (N-HEAD, N-VGSUM). Not decided: quote-style equivalence and `.x` vs `['x']` beyond 'same constructor', `$`-omission behaviour.",
 	},
 	"C03": {
 		Level:       "other",
